@@ -310,7 +310,12 @@ func randToken(rng *rand.Rand) string {
 func randAuth(rng *rand.Rand) auth {
 	switch rng.Intn(3) {
 	case 0:
-		return auth{Kind: "bearer", TypeStr: []string{"BEARER", "bearer", "Bearer"}[rng.Intn(3)], Token: randToken(rng)}
+		a := auth{Kind: "bearer", TypeStr: []string{"BEARER", "bearer", "Bearer"}[rng.Intn(3)], Token: randToken(rng)}
+		if rng.Intn(3) == 0 {
+			// a bearer registration that also fills in the header field: bearer means "Authorization: Bearer <token>"
+			a.Header = customNames[rng.Intn(len(customNames))]
+		}
+		return a
 	case 1:
 		return auth{Kind: "custom", TypeStr: []string{"CUSTOM_HEADER", "custom_header"}[rng.Intn(2)], Header: customNames[rng.Intn(len(customNames))], Token: randToken(rng)}
 	}
